@@ -60,7 +60,7 @@ func c11Validate(q string) func(s *ast.Schema) string {
 	}
 }
 
-const c11VarsDoc = `query Q($a: Int = 1, $k: Kind = DOG, $f: Filter = {req: true}, $xs: [[Int]!]) { req(a: $a) pet(kind: $k) { id } search(f: $f, ks: [$k]) { __typename } list(xs: $xs) id @tag(name: "t", n: $a) }`
+const c11VarsDoc = `query Q($a: Int = 1, $k: Kind = DOG, $f: Filter = {req: true}, $xs: [[Int]!], $fl: Float) { req(a: $a) pet(kind: $k) { id } search(f: $f, ks: [$k]) { __typename } list(xs: $xs) id @tag(name: "t", n: $a) nums n2: nums(xs: [1], z: $fl) o: id @once o2: id @once(w: $fl) }`
 
 func c11Coerce(vars func() map[string]any) func(s *ast.Schema) string {
 	return func(s *ast.Schema) string {
